@@ -83,6 +83,7 @@ l2_lookup8(const nni_id_map *m, uint64_t k)
 #define L2_SHAPE8(m) (__CPROVER_is_fresh((m), sizeof(nni_id_map)) && __CPROVER_is_fresh((m)->id_entries, 8 * IDM_ENT_SZ))
 #endif
 
+#ifdef VP_L2_GROW_ATTEMPT /* not decided, see spec.json not_decided: kept as a record of what was tried */
 /* ---- capacity 16 (only for the growth step 8 -> 16) */
 static const uint8_t l2_r16[16] = { 0, 1, 6, 15, 12, 13, 2, 11, 8, 9, 14, 7, 4, 5, 10, 3 }; /* rank on the cycle 0,1,6,15,12,13,2,11,8,9,14,7,4,5,10,3 */
 #define L2_D16(h, j) ((unsigned) (l2_r16[(j)] - l2_r16[(h)]) & 15u)
@@ -130,6 +131,8 @@ l2_lookup16(const nni_id_map *m, uint64_t k)
 	return (NULL);
 }
 
+#endif /* VP_L2_GROW_ATTEMPT */
+
 /* ghost equations: g_kv is what the (arbitrary) key g_kk maps to before the call,
  * g_j is the slot of the operated key before the call */
 #define L2_GHOST_PRE(m, id) (g_kv == L2_LOOKUP(m, g_kk) && g_j == L2_SLOTOF(m, id))
@@ -156,6 +159,7 @@ __CPROVER_ensures(RV == 0)
 #define L2_CASE_SPLIT(id)
 #endif
 
+#ifdef VP_L2_GROW_ATTEMPT
 /* growth step: id_resize on a full capacity-8 table (5 live ids) builds a
  * capacity-16 table with the invariant and the SAME mapping; ENOMEM: unchanged */
 int l2_grow8(nni_id_map *m)
@@ -172,6 +176,7 @@ __CPROVER_ensures(RV == 0 ==> (VP_HEAP_DELTA(1, 1) && __CPROVER_was_freed(OLD(m-
 __CPROVER_ensures(RV == 0 ==> l2_inv16(m))
 __CPROVER_ensures(RV == 0 ==> l2_lookup16(m, g_kk) == g_kv)
 ;
+#endif /* VP_L2_GROW_ATTEMPT */
 
 /* find is COMPLETE: it reports the slot of the key iff some live slot holds it */
 size_t l2_find8(nni_id_map *m, uint64_t id)
